@@ -10,7 +10,7 @@ import vlib
 
 LEVEL = "model_checking"
 R1 = """SPECIFICATION Spec
-CONSTANTS I = %d O = %d S = %d MaxAdvances = %d MaxStep = %d RoundUp = %s
+CONSTANTS I = %d O = %d S = %d MaxAdvances = %d MaxStep = %d RoundUp = %s TowardZero = %s
 INVARIANTS MonitorQuiet PendingAligned
 CHECK_DEADLOCK FALSE
 """
@@ -26,11 +26,15 @@ def run(ctx):
     if ctx.tier == "thorough":
         insts += [(5, 11, 9), (3, 7, 4), (2, 4, 2), (5, 0, 4), (3, 1, 0)]
     for i, o, s in insts:
-        ctx.tlc_check("AlignedTicker", ctx.write_cfg("AlignedTicker.%d-%d-%d.cfg" % (i, o, s), R1 % (i, o, s, 5 if ctx.tier == "quick" else 6, 3 * i, "FALSE")),
+        ctx.tlc_check("AlignedTicker", ctx.write_cfg("AlignedTicker.%d-%d-%d.cfg" % (i, o, s), R1 % (i, o, s, 5 if ctx.tier == "quick" else 6, 3 * i, "FALSE", "FALSE")),
                       label="i=%d o=%d s=%d" % (i, o, s), timeout=3000)
-    bad = ctx.tlc_check("AlignedTicker", ctx.write_cfg("AlignedTicker.roundup.cfg", R1 % (3, 4, 5, 5, 9, "TRUE")), label="rounding up (must fail)", must_pass=False)
+    bad = ctx.tlc_check("AlignedTicker", ctx.write_cfg("AlignedTicker.roundup.cfg", R1 % (3, 4, 5, 5, 9, "TRUE", "FALSE")), label="rounding up (must fail)", must_pass=False)
     if bad.violated != "MonitorQuiet":
         raise vlib.MachineryError("vacuity: rounding up not refuted")
+    bad = ctx.tlc_check("AlignedTicker", ctx.write_cfg("AlignedTicker.tozero.cfg", R1 % (5, 7, 3, 5, 15, "FALSE", "TRUE")),
+                        label="remainder with the sign of the dividend, start - offset before the reference instant (must fail)", must_pass=False)
+    if bad.violated != "MonitorQuiet":
+        raise vlib.MachineryError("vacuity: rounding towards zero not refuted")
     plans = [("sim8", 8, "num=%d" % (400 if ctx.tier == "quick" else 8000), 9)]
     if ctx.tier == "thorough":
         plans.append(("sim14", 14, "num=4000", 15))
